@@ -19,12 +19,14 @@ EXPLANATION = (
     "element k at k * element width, and the sizes are max(offset+width) / max(width) / width * length; (c) "
     "Layout.const merges every field with one mask built from that field's own width and offset; from_bits wraps the "
     "raw integer; (d) flag-view operators pass the same-named operator, reflected aliases point at their forward "
-    "method, shaped enums convert through Const(member.value, as_shape()) and cls(bits). (e) strided slices of array constants walk the same range as "
+    "method, shaped enums convert through Const(member.value, as_shape()) and cls(bits). assignment through a field (a Slice/Part target) "
+    "stays inside the field's window in the testbench evaluator, the code generator and the netlist builder (R-02e, "
+    "R-02g shared with C02); (e) strided slices of array constants walk the same range as "
     "the view's Cat(), select the same element window and pack the selected elements contiguously. NOT decided: the "
     "round-trip laws for arbitrary layouts."
 )
 ASSUMPTIONS = ["CPython ast parses /repo's source as the interpreter would"]
-MIN_INSTANCES = {"R-15e": 4, "R-15a": 5, "R-15b": 7, "R-15c": 3, "R-15d": 7}
+MIN_INSTANCES = {"R-02e": 6, "R-02g": 5, "R-15e": 4, "R-15a": 5, "R-15b": 7, "R-15c": 3, "R-15d": 7}
 
 
 def _norm_cond(t):
@@ -372,4 +374,8 @@ def r15e(model, ctx):
               f"Cat(...) only for unit strides)", f"{D}:{st.lineno}")
 
 
-RULES = [("R-15e", r15e), ("R-15a", r15a), ("R-15b", r15b), ("R-15c", r15c), ("R-15d", r15d)]
+# "assigning through a view field changes only that field's bits - in simulation and in synthesis alike": a view field
+# is a Slice (static key) or Part (dynamic index) of the target, so the clause rests on the window discipline of the
+# three assignment walkers (testbench evaluator, code generator, netlist builder), decided by R-02e / R-02g.
+RULES = [("R-15e", r15e), ("R-15a", r15a), ("R-15b", r15b), ("R-15c", r15c), ("R-15d", r15d),
+         ("R-02e", c02.r02e), ("R-02g", c02.r02g)]
